@@ -536,15 +536,259 @@ def near_names_part(check):
             part(check)
 
 
+# ----------------------------------------------------------------------------- cfg attributes on inline modules
+
+MOD_OS = ["ios", "android", "macos", "linux", "wasm32"]
+MOD_TARGET_LISTS = [[], ["ios"], ["android"], ["linux"], ["ios", "android"], ["android", "ios"], ["macos", "wasm32"], ["windows"],
+                    ["ios", "android", "macos"], ["linux", "windows", "android"]]
+
+
+def mod_guard(rng):
+    """the attributes of an inline module: one cfg (plain / not / any / all over target_os names, features, bare words, to depth
+    3), sometimes two, sometimes next to another attribute"""
+    r = rng.random()
+    os_ = lambda: m_nv("target_os", lit_s(rng.choice(MOD_OS)))
+    if r < 0.2:
+        e = os_()
+    elif r < 0.4:
+        e = m_list("not", [os_()])
+    elif r < 0.5:
+        e = m_list("any", [os_(), os_()])
+    elif r < 0.6:
+        e = m_list("all", [m_nv("feature", lit_s("f")), rng.choice([os_(), m_list("not", [os_()])])])
+    else:
+        e = near_expr(rng, MOD_OS, rng.randint(1, 3))
+    attrs = [m_list("cfg", [e])]
+    if rng.random() < 0.2:
+        attrs.append(m_list("cfg", [near_expr(rng, MOD_OS, rng.randint(0, 2))]))
+    if rng.random() < 0.2:
+        attrs.insert(rng.randint(0, len(attrs)), m_list("allow", [m_path("dead_code")]))
+    return attrs
+
+
+def guard_modules(rng, items, p, depth=1, found=None):
+    """put cfg attributes on the inline modules (probability p each) of a generated file, in place; returns
+    [(depth of the module, its cfg attributes, the annotated items below it)]"""
+    import c03
+    found = [] if found is None else found
+
+    def below(its):
+        out = []
+        for it in its:
+            if it["kind"] in ("mod", "other"):
+                out += below(it["items"])
+            elif it["kind"] != "use" and c03.is_annotated(it.get("attrs", [])):
+                out.append(it)
+        return out
+    for it in items:
+        if it["kind"] == "mod":
+            if rng.random() < p:
+                it["attrs"] = mod_guard(rng)
+                found.append((depth, [a for a in it["attrs"] if a[1] == ["cfg"]], below(it["items"])))
+            guard_modules(rng, it["items"], p, depth + 1, found)
+        elif it["kind"] == "other":
+            guard_modules(rng, it["items"], p, depth, found)
+    return found
+
+
+def strip_module_attrs(items):
+    import copy
+    out = []
+    for it in items:
+        if it["kind"] in ("mod", "other"):
+            it = dict(it, items=strip_module_attrs(it["items"]))
+            if it["kind"] == "mod":
+                it["attrs"] = []
+        else:
+            it = copy.deepcopy(it)
+        out.append(it)
+    return out
+
+
+def module_level_part(check):
+    """cfg(target_os ..) attributes on *inline modules* (accepting and rejecting ones: plain / not / any / all, to depth 3, one or
+    two cfg attributes) at module depth 1-3 (also inside fn bodies) around annotated items with and without cfg attributes of
+    their own, under 0-3 --target-os names, through parser::parse.  A module is not an attachment level of the rule (those are
+    file, type, variant, field, struct-variant field): demanded is the python reading of the rule (c03.expected: an item is listed
+    iff the file's and its own cfg attributes accept - items without a target_os predicate always), and that the program parses
+    exactly like the same program with the module attributes deleted; compared with the model as well"""
+    import c03
+    rng = check.rng
+    cases = []
+    for i in range(4000 if check.thorough else 500):
+        g = Gen(rng, p_cfg=0.3, p_skip=0.05, p_mod=0.75, p_noise=0.15, p_serialized_as=0.0)
+        f = g.file()
+        mods = guard_modules(rng, f["items"], 0.7)
+        tos = list(rng.choice(MOD_TARGET_LISTS))
+        m, r, text = l1.requests(f, g, target_os=tos)
+        cases.append((f, tos, m, r, text, mods, g))
+    mans, rans, diffs = l1.compare([(c[2], c[3]) for c in cases])
+    for (f, tos, m, r, text, mods, g), ma, ra in zip(cases, mans, rans):
+        rejecting = [x for x in mods if rule(x[1], tos) is False]
+        check.saw("mod-L1|" + text + "|" + ",".join(tos), nontrivial=bool(rejecting) and any(x[2] for x in rejecting))
+        check.count("module-level-cases-with-%d-targets" % len(tos))
+        for d, cfgs, below in mods:
+            verdict = rule(cfgs, tos)
+            check.count("module-cfg-depth-%d" % d)
+            check.count("module-cfg-%s" % ("no-targets" if not tos else "accepting" if verdict else "rejecting"))
+            if tos and verdict is False:
+                for it in below:
+                    own = [a for a in it["attrs"] if a[0] == "l" and a[1] == ["cfg"] and a[2]]
+                    own_os = [n for a in own for x in a[3] for n in (names(x) or [])]
+                    check.count("annotated-item-in-rejecting-module-%s" % ("with-own-target_os" if own_os else "without-target_os"))
+        if "typeshare" not in text:
+            continue
+        exp = c03.expected(f, tos)
+        prob = c03.oracle(exp, ra)
+        if prob:
+            listed = [it["id"]["o"] for k in ("structs", "enums", "aliases", "consts") for it in (ra.get("ok") or {}).get(k, [])] if isinstance(ra.get("ok"), dict) else []
+            errs = len((ra.get("ok") or {}).get("errors", [])) if isinstance(ra.get("ok"), dict) else 0
+            missing = [n for _, n, _ in exp if n not in listed]
+            why = ""
+            if missing and not errs:
+                hit = [(d, cfgs) for d, cfgs, below in mods if any(it["ident"] == missing[0] for it in below)]
+                why = ("; `%s` is not listed although the file's and its own cfg attributes accept - it sits in inline module(s) guarded by %s, "
+                       "and a module is not an attachment level of the rule" % (missing[0], " / ".join(" ".join(render_attr(a) for a in c) for _, c in hit) or "(no cfg)"))
+            check.violation("--target-os %s with cfg attributes on inline modules: the listed items / members differ from the documented rule: %s%s"
+                            % (tos, prob, why), case={"source": text, "target_os": tos, "request": r}, impl=ra, model=ma, failing_input=True)
+            return
+    # metamorphic form: module attributes have no effect at all
+    twins = [c for c in cases if c[5] and "typeshare" in c[4]][: (1500 if check.thorough else 250)]
+    treqs = [l1.requests({"attrs": c[0]["attrs"], "items": strip_module_attrs(c[0]["items"])}, c[6], target_os=c[1])[1] for c in twins]
+    idx = {id(c): i for i, c in enumerate(cases)}
+    for c, ta in zip(twins, runner(treqs)):
+        ra = rans[idx[id(c)]]
+        check.count("module-attributes-deleted-twin")
+        if ta != ra:
+            a, b = ra.get("ok"), ta.get("ok")
+            what = [k for k in ("structs", "enums", "aliases", "consts", "errors") if isinstance(a, dict) and isinstance(b, dict) and a.get(k) != b.get(k)] \
+                or ["the whole answer"]
+            check.violation("--target-os %s: the program and the same program with the attributes of its inline modules deleted do not parse "
+                            "alike (they differ in %s): a cfg attribute on a module has an effect, but a module is not an attachment level "
+                            "of the rule" % (c[1], what), case={"source": c[4], "target_os": c[1], "request": c[3]}, impl=ra, model=ta,
+                            failing_input=True)
+            return
+    if diffs:
+        i = diffs[0]
+        check.violation("parser::parse differs from the model with target_os=%s and cfg attributes on inline modules: %s"
+                        % (cases[i][1], l1.first_diff(mans[i], rans[i])),
+                        case={"source": cases[i][4], "target_os": cases[i][1], "request": cases[i][3]}, impl=rans[i], model=mans[i],
+                        failing_input=False, broken="correspondence L1 (theorems TsV.C13.file_level/item_level/member_level)")
+
+
+def module_cli_part(check):
+    """cfg attributes on inline modules in the text the binary writes with --target-os (0-3 names): programs of 1-3 files, every
+    file a tree of inline modules of depth 1-3 (guards as outer attributes, sometimes as an inner attribute `#![cfg(..)]` of the
+    module, sometimes an out-of-line `mod f1;` declaration with a guard), with marker structs / enums at every depth that carry a
+    cfg of their own or none, and a guarded field / variant.  A marker is in the output exactly when the rule accepts its own
+    attachment levels (type, field / variant); the guards of the enclosing modules do not count"""
+    rng = check.rng
+    for k in range(150 if check.thorough else 14):
+        tos = list(rng.choice(MOD_TARGET_LISTS))
+        files, want, guards = {}, {}, {}
+        nfiles = rng.randint(1, 3)
+        counter = [0]
+
+        def own(p):
+            return [m_list("cfg", [near_expr(rng, MOD_OS, rng.randint(0, 2))])] if rng.random() < p else []
+
+        def marker(ind, chain):
+            counter[0] += 1
+            tag = "%d" % counter[0]
+            t, fl, v = own(0.4), own(0.5), own(0.5)
+            at = lambda attrs, i: "".join(i + render_attr(a) + "\n" for a in attrs)
+            lines = [ind + "#[typeshare]", at(t, ind) + ind + "pub struct TypeQ%s {" % tag, ind + "    pub always_q%s: u8," % tag,
+                     at(fl, ind + "    ") + ind + "    pub field_q%s: u8," % tag, ind + "}",
+                     ind + "#[typeshare]", ind + "pub enum EnumQ%s {" % tag, ind + "    PlainQ%s," % tag,
+                     at(v, ind + "    ") + ind + "    VariantQ%s," % tag, ind + "}"]
+            for w, gs in (("TypeQ", [t]), ("always_q", [t]), ("field_q", [t, fl]), ("EnumQ", []), ("PlainQ", []), ("VariantQ", [v])):
+                want[w + tag] = all(rule(g, tos) for g in gs)
+                guards[w + tag] = ("own cfg: %s; enclosing modules: %s" % (" / ".join(" ".join(render_attr(a) for a in g) for g in gs if g) or "none",
+                                                                        " > ".join(chain) or "none"))
+            has_os = any(names(x) for g in (t,) for a in g for x in a[3])
+            check.count("cli-marker-type-%s-own-target_os" % ("with" if has_os else "without"))
+            return lines
+
+        def module(ind, depth, chain, name):
+            gattrs = mod_guard(rng) if rng.random() < 0.75 else []
+            inner = bool(gattrs) and rng.random() < 0.15
+            verdict = rule([a for a in gattrs if a[1] == ["cfg"]], tos)
+            check.count("cli-module-depth-%d" % depth)
+            check.count("cli-module-%s" % ("unguarded" if not gattrs else "no-targets" if not tos else "accepting" if verdict else "rejecting"))
+            here = chain + ["%s mod %s" % (" ".join(render_attr(a, inner=inner) for a in gattrs) or "(no cfg)", name)]
+            lines = [] if inner else [ind + render_attr(a) for a in gattrs]
+            lines.append(ind + "pub mod %s {" % name)
+            if inner:
+                lines += [ind + "    " + render_attr(a, inner=True) for a in gattrs]
+            for j in range(rng.randint(1, 2)):
+                if depth < 3 and rng.random() < 0.5:
+                    lines += module(ind + "    ", depth + 1, here, "%s_%d" % (name, j))
+                else:
+                    lines += marker(ind + "    ", here)
+            lines.append(ind + "}")
+            return lines
+
+        for fi in range(nfiles):
+            lines = []
+            if fi == 0 and nfiles > 1 and rng.random() < 0.5:
+                # an out-of-line module declaration with a guard: the file it names is a file of the crate like any other
+                lines += [render_attr(a) for a in mod_guard(rng)] + ["pub mod f1;"]
+                check.count("cli-guarded-out-of-line-declaration")
+            if rng.random() < 0.5:
+                lines += marker("", [])
+            for j in range(rng.randint(1, 2)):
+                lines += module("", 1, [], "m%d_%d" % (fi, j))
+            files["p/src/%s.rs" % ("lib" if fi == 0 else "f%d" % fi)] = "\n".join(lines) + "\n"
+        opts = ["--lang", "typescript", "-o", "o.ts", "p"] + (["--target-os"] + tos if tos else [])
+        with Scratch() as sc:
+            for rel, text in files.items():
+                sc.write(rel, text)
+            r = run_cli(["--lang", "typescript", "-o", sc.path("o.ts"), sc.path("p")] + (["--target-os"] + tos if tos else []), cwd=sc.dir,
+                        timeout=300)
+            out = open(sc.path("o.ts")).read() if os.path.exists(sc.path("o.ts")) else ""
+        words = set(re.findall(r"\w+", out))
+        wrong = [w for w in sorted(want) if (w in words) != want[w]]
+        check.saw(("mod-cli", k, tuple(tos)), nontrivial=bool(tos))
+        check.count("cli-module-programs-with-%d-targets" % len(tos))
+        check.count("cli-module-marked-positions", len(want))
+        if r["rc"] != 0 or wrong:
+            w = wrong[0] if wrong else None
+            check.violation("typeshare %s on a program with cfg attributes on inline modules: %s"
+                            % ("--target-os " + " ".join(tos) if tos else "without --target-os",
+                               ("`%s` (%s) is %s, the documented rule says it is %s - a module is not an attachment level, an item is kept "
+                                "iff its own levels accept; in all %d marked names differ: %s"
+                                % (w, guards[w], "generated" if w in words else "left out", "generated" if want[w] else "left out", len(wrong), wrong))
+                               if wrong else "the run failed (exit status %s)" % r["rc"]),
+                            case={"files": files, "target_os": tos, "options": opts},
+                            impl={"rc": r["rc"], "stderr": r["err"][-600:], "output": out}, failing_input=True)
+            return
+
+
+def module_cfg_part(check):
+    """cfg(target_os ..) attributes on inline modules - which are *not* an attachment level of the rule - at nesting depth 1-3
+    around annotated items with and without predicates of their own, under 0-3 target names: an item is kept iff the file's and
+    its own attachment levels accept, whatever the enclosing modules say.  Through parser::parse (against the python reading of
+    the rule, against the program without the module attributes, against the model) and through the binary."""
+    for part in (module_level_part, module_cli_part):
+        if not check.has_failing():
+            part(check)
+
+
 _run_l0 = run
 
 
 def run(check):
     _run_l0(check)
     if not check.has_failing():
+        module_cfg_part(check)
+    if not check.has_failing():
         near_names_part(check)
     if not check.has_failing():
         level_part(check)
+    check.rule += ("; cfg attributes on inline modules (not an attachment level): random programs with plain / not / any / all guards "
+                   "on 70% of their modules at depth 1-3 around annotated items with and without cfg attributes of their own x 10 "
+                   "target lists of 0-3 names through parser::parse (python reading of the rule, the twin without module "
+                   "attributes, the model), and marker programs of 1-3 files through the binary's --target-os")
     check.rule += ("; nearly equal OS names (a base name and names that differ from it in letter case, by a prefix / suffix, by - _ . or "
                    "a blank inside, by surrounding blanks, by a trailing digit, the empty name, non-ASCII case / look-alike letters) in "
                    "the source and in the target list: all ordered pairs x 7 expression shapes and random expressions on "
